@@ -408,6 +408,8 @@ pub enum Op {
     WbInsert(usize),
     New,
     Remove(usize),
+    /// a clone of the workbook is fully loaded, saved to a sink and dropped: the original must not notice
+    Fork,
     Save,
 }
 impl Op {
@@ -421,6 +423,7 @@ impl Op {
             Op::WbInsert(i) => json!({"op": "insert_new_row(name_of(i),1,1)", "i": i}),
             Op::New => json!({"op": "new_sheet+cell"}),
             Op::Remove(i) => json!({"op": "remove_sheet", "i": i}),
+            Op::Fork => json!({"op": "clone(); clone.read_sheet_collection(); save clone; drop clone"}),
             Op::Save => json!({"op": "save"}),
         }
     }
@@ -434,6 +437,7 @@ impl Op {
             Op::WbInsert(_) => "wb_insert_new_row",
             Op::New => "new_sheet",
             Op::Remove(_) => "remove_sheet",
+            Op::Fork => "fork_clone",
             Op::Save => "save",
         }
     }
@@ -468,6 +472,7 @@ fn ops_for(n: usize) -> Vec<Op> {
             v.push(Op::Remove(i));
         }
     }
+    v.push(Op::Fork);
     v.push(Op::Save);
     v
 }
@@ -559,6 +564,17 @@ fn apply(b: &mut Spreadsheet, op: &Op) -> String {
             Ok(()) => "ok".into(),
             Err(e) => format!("err:{}", e),
         },
+        Op::Fork => {
+            let mut c = b.clone();
+            c.read_sheet_collection();
+            let mut sink = std::io::Cursor::new(Vec::new());
+            let r = umya_spreadsheet::writer::xlsx::write_writer(&c, &mut sink);
+            drop(c);
+            match r {
+                Ok(()) => "ok".into(),
+                Err(e) => format!("err:{:?}", e),
+            }
+        }
         Op::Save => "ok".into(),
     }
 }
@@ -937,7 +953,7 @@ impl<'a> C11Machine<'a> {
                     s.tp.remove(*i);
                 }
             }
-            Op::Save => {}
+            Op::Fork | Op::Save => {}
         }
         (touched, full)
     }
